@@ -63,6 +63,9 @@ def corruptions(e, name, order):
         c = copy.deepcopy(e); c["initial_value"] = "1"; out.append(("both_spellings", c, "Malformed"))
     if "initial_value" in e:
         c = copy.deepcopy(e); c["initial_values"] = {name: "1"}; out.append(("both_spellings", c, "Malformed"))
+        c = copy.deepcopy(e); c["initial_values"] = {}; out.append(("both_spellings_second_empty", c, "Malformed"))
+    if order > 0:
+        c = copy.deepcopy(e); c.pop("initial_value", None); c["initial_values"] = {}; out.append(("missing_all_ivs_empty_dict", c, "Malformed"))
     if order != 1:
         c = copy.deepcopy(e); c.pop("initial_values", None); c["initial_value"] = "1"; out.append(("single_iv_on_order_%d" % order, c, "Malformed"))
     if order == 0:
